@@ -359,7 +359,7 @@ func (r *Run) checkTriggers() {
 		}
 	}
 	// approval
-	if inRolling && cond.Reason == "InRolling" && ss.CurrentStepState == v1beta1.CanaryStepStatePaused && (r.mode == "release" || r.mode == "rollback-batches") {
+	if inRolling && cond.Reason == "InRolling" && ss.CurrentStepState == v1beta1.CanaryStepStatePaused && r.approving() {
 		idx := int(ss.CurrentStepIndex)
 		if idx >= 1 && idx <= len(ro.Spec.Strategy.GetSteps()) && ro.Spec.Strategy.GetSteps()[idx-1].Pause.Duration == nil {
 			if r.pausedSeenAt < 0 {
@@ -378,6 +378,13 @@ func (r *Run) checkTriggers() {
 	} else {
 		r.pausedSeenAt = -1
 	}
+}
+
+// approving: the user grants approvals whenever the Rollout waits for one, unless they have taken the Rollout out of the
+// game. (A revert that arrives before any pod was updated is handled by the controller as one more release - of the old
+// revision - which asks for approvals like any other.)
+func (r *Run) approving() bool {
+	return r.mode != "deleted" && r.mode != "disabled" && r.mode != "bg-superseded"
 }
 
 func (r *Run) doUser(a string) {
@@ -601,7 +608,7 @@ func (r *Run) Execute() {
 			}
 		}
 		if !r.step() {
-			if r.pausedSeenAt >= 0 && len(r.userQueue) == 0 && (r.mode == "release" || r.mode == "rollback-batches") {
+			if r.pausedSeenAt >= 0 && len(r.userQueue) == 0 && r.approving() {
 				// the cluster is quiet and waits for the user's approval: grant it now
 				r.userQueue = append(r.userQueue, "approve")
 				continue
